@@ -204,9 +204,10 @@ def chain_spec(draw, min_n=6, max_n=12, kinds=("scale", "cb", "next", "prev", "l
             links.append([tn, "Out", [], names[i], "i0"])
         else:
             links.append([names[i - 1], "o", chain, names[i], "i0"])
+    dep_all = draw(st.booleans())  # every stage waits for its input's initial data: one uninterrupted dependency path
     for i, m in enumerate(names):
         comps.append({"kind": "model", "name": m, "start": 0, "steps": draw(st.lists(st.integers(1, 4), min_size=1, max_size=2)),
-                      "ins": ["i0"] if i else [], "outs": ["o"], "after_data": bool(i) and draw(st.integers(0, 3)) > 0})
+                      "ins": ["i0"] if i else [], "outs": ["o"], "after_data": bool(i) and (dep_all or draw(st.integers(0, 3)) > 0)})
     allnames = [c["name"] for c in comps]
     mode = draw(st.sampled_from(["sink-first", "sink-first", "source-first", "interleaved", "random"]))
     path = names + [c["name"] for c in comps if c["kind"] == "thru"]
